@@ -940,7 +940,12 @@ void link_free(link * l) {
 
 
 /// Fix single whitespace characters
-void whitespace_fix(token * t, const char * source) {
+static void whitespace_fix_at_depth(token * t, const char * source, unsigned short depth) {
+	// Avoid stack overflow in "pathologic" input
+	if (depth == kMaxExportRecursiveDepth) {
+		return;
+	}
+
 	while (t) {
 		if ((t->type == TEXT_PLAIN) && (t->len == 1)) {
 			if (source[t->start] == ' ') {
@@ -949,11 +954,16 @@ void whitespace_fix(token * t, const char * source) {
 		}
 
 		if (t->child) {
-			whitespace_fix(t->child, source);
+			whitespace_fix_at_depth(t->child, source, depth + 1);
 		}
 
 		t = t->next;
 	}
+}
+
+
+void whitespace_fix(token * t, const char * source) {
+	whitespace_fix_at_depth(t, source, 0);
 }
 
 
